@@ -678,9 +678,248 @@ Record lex_ok (s : list N) (r : lexres) : Prop := mkLexOk {
   lo_recomb : recombineTokens r = s;
   lo_pos : toks_pos_ok [] (r_all r);
   lo_prefix : exists suffix, r_all r = r_toks r ++ suffix;
-  lo_nonempty : forall a t b, r_all r = a ++ t :: b -> t_val t = [] -> b = [] /\ t_type t = T_eof /\ r_rest r = [] /\ r_err r <> None -> False \/ True;
   lo_empty_only_eof : forall a t b, r_all r = a ++ t :: b -> t_val t = [] -> b = [] /\ t_type t = T_eof /\ r_rest r = [];
   lo_noerr : r_err r = None ->
              r_rest r = [] /\ r_toks r = r_all r /\ exists init p, r_all r = init ++ [mkTok T_eof [] p];
   lo_err : forall e, r_err r = Some e ->
            (exists init, r_toks r = init ++ [e_tok e]) /\ e_outer e = t_pos (e_tok e) }.
+
+Lemma l_tokens_rev st : l_tokens st = rev (l_rtoks st).
+Proof. unfold l_tokens. symmetry. apply rev_alt. Qed.
+
+Theorem generateTokens_total o s : exists r, generateTokens o s = Ok r /\ lex_ok s r.
+Proof.
+  unfold generateTokens.
+  destruct (lexLoop_good o s (S (length s)) (newLexer s) (good_new s)) as (st & e & E & G & He & Hn).
+  { simpl. lia. }
+  rewrite E. destruct e as [err|].
+  - eexists. split; [reflexivity|]. rewrite l_tokens_rev.
+    destruct He as (rest & Hr & Ho).
+    split; cbn [r_toks r_err r_all r_rest recombineTokens].
+    + unfold recombineTokens. cbn [r_all r_rest]. apply G.
+    + apply G.
+    + exists []. rewrite app_nil_r. reflexivity.
+    + intros a t b Ea Hv. exfalso.
+      assert (In t (l_rtoks st)). { apply in_rev. rewrite Ea. apply in_or_app. right. left. reflexivity. }
+      pose proof (g_nonempty _ _ G) as F. rewrite Forall_forall in F. exact (F _ H Hv).
+    + discriminate.
+    + intros e' E'. inversion E'; subst e'. split; [|exact Ho]. exists (rev rest). rewrite Hr. reflexivity.
+  - specialize (Hn eq_refl).
+    assert (Ea : advance 0 T_eof st =
+                 Some (mkTok T_eof [] (l_pos st), mkL [] (mkTok T_eof [] (l_pos st) :: l_rtoks st) (l_pos st))).
+    { unfold advance. rewrite Hn. cbn [lenAtLeast negb firstn skipn]. destruct (l_pos st). cbn.
+      rewrite !N.add_0_r. reflexivity. }
+    rewrite Ea. clear Ea.
+    set (eoft := mkTok T_eof [] (l_pos st)).
+    rewrite l_tokens_rev. cbn [l_rtoks l_str rev].
+    pose proof (validateTokens_spec (o_lang o) (rev (l_rtoks st) ++ [eoft])) as (Hp & Hq & Hr).
+    destruct (validateTokens (o_lang o) (rev (l_rtoks st) ++ [eoft])) as [p e]. cbn [fst snd] in *.
+    eexists. split; [reflexivity|].
+    pose proof (g_recomb _ _ G) as Hrec. unfold consumed in Hrec. rewrite Hn, app_nil_r in Hrec.
+    split; cbn [r_toks r_err r_all r_rest recombineTokens].
+    + unfold recombineTokens. cbn [r_all r_rest]. fold (vals (rev (l_rtoks st) ++ [eoft])). rewrite vals_snoc, !app_nil_r. exact Hrec.
+    + apply toks_pos_ok_snoc. split; [apply G|]. cbn [app t_pos eoft]. apply G.
+    + destruct Hp as [suf Hsuf]. exists suf. exact Hsuf.
+    + intros a t b Eab Hv.
+      destruct (snoc_split_unique (fun t => t_val t <> []) (rev (l_rtoks st)) eoft) with (a := a) (t := t) (b := b) as [Hb Ht].
+      * apply Forall_rev. apply G.
+      * exact Eab.
+      * intros H. exact (H Hv).
+      * subst. auto.
+    + intros ->. split; [reflexivity|]. split; [apply Hq; reflexivity|].
+      exists (rev (l_rtoks st)), (l_pos st). reflexivity.
+    + intros err ->. apply Hr. reflexivity.
+Qed.
+
+(** * Consequences used by the property files *)
+
+(** positions of the tokens of a well laid-out list *)
+Lemma tok_at ts : forall pre i t, toks_pos_ok pre ts -> nth_error ts i = Some t ->
+  t_pos t = pos_spec (pre ++ vals (firstn i ts)) /\ exists rest, vals ts = vals (firstn i ts) ++ t_val t ++ rest.
+Proof.
+  induction ts as [|x ts IH]; intros pre i t H E; [destruct i; discriminate|].
+  destruct H as [H1 H2]. destruct i as [|i]; cbn [nth_error firstn] in *.
+  - inversion E; subst. unfold vals at 1. cbn. rewrite app_nil_r. split; [exact H1|].
+    exists (vals ts). reflexivity.
+  - destruct (IH _ _ _ H2 E) as [P [rest R]]. split.
+    + rewrite P. unfold vals at 2. cbn [map concat]. fold (vals (firstn i ts)). rewrite app_assoc. reflexivity.
+    + exists rest. unfold vals at 1 2. cbn [map concat]. fold (vals ts). fold (vals (firstn i ts)).
+      rewrite R, <- app_assoc. reflexivity.
+Qed.
+
+Lemma firstn_le_split (ts : list token) : forall j i, (j <= i)%nat -> exists x, firstn i ts = firstn j ts ++ x.
+Proof.
+  induction ts; intros j i H; [exists []; rewrite !firstn_nil; reflexivity|].
+  destruct j; [exists (firstn i (a :: ts)); reflexivity|]. destruct i; [lia|].
+  destruct (IHts j i) as [x Hx]; [lia|]. exists x. cbn [firstn]. rewrite Hx. reflexivity.
+Qed.
+
+(** consolePrint slices nothing out of range when the three positions are true positions of
+    [outer <= begin <= begin + |val| <= n] *)
+Lemma consoleCorrupted_false n pre_o x v :
+  lenN (pre_o ++ x) + lenN v <= n ->
+  consoleCorrupted n (pos_spec pre_o) (pos_spec (pre_o ++ x))
+    (mkPos (p_line (pos_spec (pre_o ++ x))) (p_col (pos_spec (pre_o ++ x)) + lenN v)
+           (p_slo (pos_spec (pre_o ++ x))) (p_off (pos_spec (pre_o ++ x)) + lenN v)) = false.
+Proof.
+  intros H. unfold consoleCorrupted, safeRangeBad, pos_spec. cbn [p_line p_col p_slo p_off].
+  rewrite N.eqb_refl.
+  pose proof (lineStart_le pre_o). pose proof (lineStart_le (pre_o ++ x)). pose proof (lineStart_mono pre_o x).
+  rewrite lenN_app in *.
+  repeat match goal with |- context [?a <? ?b] => replace (a <? b) with false by (symmetry; apply N.ltb_ge; lia) end.
+  reflexivity.
+Qed.
+
+(** an error located at token [i] with outer context token [j <= i] of a well laid-out token list *)
+Lemma admissible_in_range s ts rest e :
+  toks_pos_ok [] ts -> vals ts ++ rest = s -> admissibleErr ts e ->
+  errCorrupted (lenN s) e = false /\
+  p_off (e_begin e) <= p_off (e_end e) <= lenN s /\
+  p_off (e_outer e) <= p_off (e_begin e) /\
+  (exists pre, e_begin e = pos_spec pre /\ exists post, s = pre ++ t_val (e_tok e) ++ post) /\
+  (exists pre, e_outer e = pos_spec pre /\ exists post, s = pre ++ post).
+Proof.
+  intros Hp Hs (i & j & t & Ei & Hji & Ej & Ho).
+  destruct (tok_at ts [] i (e_tok e) Hp Ei) as [Pi [ri Ri]].
+  destruct (tok_at ts [] j t Hp Ej) as [Pj [rj Rj]].
+  destruct (firstn_le_split ts j i Hji) as [x Hx]. cbn [app] in Pi, Pj.
+  rewrite Hx, vals_app in Pi, Ri.
+  set (pre_o := vals (firstn j ts)) in *. set (xx := vals x) in *.
+  assert (Hlen : lenN (pre_o ++ xx) + lenN (t_val (e_tok e)) <= lenN s).
+  { rewrite <- Hs, Ri, !lenN_app. lia. }
+  unfold errCorrupted, e_begin, e_end. rewrite Ho, Pj, Pi.
+  split; [apply consoleCorrupted_false; exact Hlen|].
+  cbn [p_off pos_spec]. rewrite lenN_app in *. split; [lia|]. split; [lia|]. split.
+  - exists (pre_o ++ xx). split; [reflexivity|]. exists (ri ++ rest). rewrite <- Hs, Ri, <- !app_assoc. reflexivity.
+  - exists pre_o. split; [reflexivity|]. exists (t_val t ++ rj ++ rest). rewrite <- Hs, Rj, <- !app_assoc. reflexivity.
+Qed.
+
+Lemma nth_error_snoc (init : list token) t : nth_error (init ++ [t]) (length init) = Some t.
+Proof. induction init; simpl; auto. Qed.
+
+Lemma nth_error_app_l (a b : list token) i t : nth_error a i = Some t -> nth_error (a ++ b) i = Some t.
+Proof. revert i. induction a; intros [|i] H; simpl in *; try discriminate; auto. Qed.
+
+(** the tokenizer's own errors are admissible (outer = the token itself) *)
+Lemma lex_err_admissible s r e : lex_ok s r -> r_err r = Some e -> admissibleErr (r_all r) e.
+Proof.
+  intros L E. destruct (lo_err _ _ L e E) as [[init Hi] Ho]. destruct (lo_prefix _ _ L) as [suf Hsuf].
+  exists (length init), (length init), (e_tok e).
+  assert (nth_error (r_all r) (length init) = Some (e_tok e)).
+  { rewrite Hsuf, Hi. apply nth_error_app_l. apply nth_error_snoc. }
+  auto.
+Qed.
+
+Lemma admissible_mono (a b : list token) e : admissibleErr a e -> admissibleErr (a ++ b) e.
+Proof.
+  intros (i & j & t & Ei & Hji & Ej & Ho). exists i, j, t.
+  split; [apply nth_error_app_l; exact Ei|]. split; [exact Hji|]. split; [apply nth_error_app_l; exact Ej|exact Ho].
+Qed.
+
+(** parseFront (the part of ParseTLFile / ParseTL2File before the parser proper) never panics *)
+Theorem parseFront_total o s :
+  exists r, generateTokens o s = Ok r /\ lex_ok s r /\
+  ((exists e, r_err r = Some e /\ parseFront o s = Ok (F_tokerr e)) \/
+   (r_err r = None /\ parseFront o s = Ok (F_tokens (r_toks r)))).
+Proof.
+  destruct (generateTokens_total o s) as (r & E & L). exists r. split; [exact E|]. split; [exact L|].
+  unfold parseFront. rewrite E. destruct (r_err r) as [e|] eqn:Ee.
+  - left. exists e. auto.
+  - right. rewrite (lo_recomb _ _ L), list_eqb_refl. auto.
+Qed.
+
+(** * Statements in the form used by Props/C19.v and Props/C20.v (any options [o]) *)
+Lemma tok_split a : forall pre t b, toks_pos_ok pre (a ++ t :: b) -> t_pos t = pos_spec (pre ++ vals a).
+Proof.
+  induction a as [|x a IH]; intros pre t b H.
+  - unfold vals. cbn. rewrite app_nil_r. apply H.
+  - destruct H as [_ H]. rewrite (IH _ _ _ H). unfold vals at 2. cbn [map concat]. fold (vals a).
+    rewrite app_assoc. reflexivity.
+Qed.
+
+Theorem lex_total o s : exists r, generateTokens o s = Ok r.
+Proof. destruct (generateTokens_total o s) as (r & E & _). eauto. Qed.
+
+Theorem lex_recombine o s r : generateTokens o s = Ok r -> recombineTokens r = s.
+Proof.
+  intros E. destruct (generateTokens_total o s) as (r' & E' & L). rewrite E in E'. inversion E'; subst. apply L.
+Qed.
+
+(** the invariant holds initially and every nextToken call from a state with input left keeps it,
+    does not panic and strictly shortens the remaining input *)
+Theorem lex_progress o s :
+  good s (newLexer s) /\
+  forall st, good s st -> l_str st <> [] ->
+    exists st' e, nextToken o st = Some (st', e) /\ good s st' /\ (length (l_str st') < length (l_str st))%nat.
+Proof.
+  split; [apply good_new|]. intros st G H.
+  destruct (nextToken_good o s st G H) as (st' & e & E & G' & Hl & _). eauto.
+Qed.
+
+Theorem lex_only_eof_empty o s r a t b :
+  generateTokens o s = Ok r -> r_all r = a ++ t :: b -> t_val t = [] -> b = [] /\ t_type t = T_eof /\ r_rest r = [].
+Proof.
+  intros E. destruct (generateTokens_total o s) as (r' & E' & L). rewrite E in E'. inversion E'; subst. apply L.
+Qed.
+
+Theorem lex_pos_ok o s r a t b :
+  generateTokens o s = Ok r -> r_all r = a ++ t :: b ->
+  t_pos t = pos_spec (vals a) /\
+  p_off (t_pos t) = lenN (vals a) /\
+  p_off (t_pos t) + lenN (t_val t) <= lenN s /\
+  p_slo (t_pos t) <= p_off (t_pos t) /\
+  p_col (t_pos t) = p_off (t_pos t) - p_slo (t_pos t) + 1 /\
+  p_line (t_pos t) = 1 + count10 (vals a) /\
+  exists post, s = vals a ++ t_val t ++ post.
+Proof.
+  intros E Hab. destruct (generateTokens_total o s) as (r' & E' & L). rewrite E in E'. inversion E'; subst r'.
+  pose proof (lo_pos _ _ L) as P. rewrite Hab in P. pose proof (tok_split _ _ _ _ P) as Ht. cbn [app] in Ht.
+  pose proof (lo_recomb _ _ L) as R. unfold recombineTokens in R. fold (vals (r_all r)) in R.
+  rewrite Hab, vals_app in R. unfold vals at 2 in R. cbn [map concat] in R. fold (vals b) in R.
+  rewrite Ht. cbn [pos_spec p_off p_slo p_col p_line]. pose proof (lineStart_le (vals a)).
+  split; [reflexivity|]. split; [reflexivity|]. split.
+  - rewrite <- R, !lenN_app. lia.
+  - split; [exact H|]. split; [reflexivity|]. split; [reflexivity|].
+    exists (vals b ++ r_rest r). rewrite <- R, <- !app_assoc. reflexivity.
+Qed.
+
+Theorem front_total o s :
+  (exists e, parseFront o s = Ok (F_tokerr e)) \/ (exists toks, parseFront o s = Ok (F_tokens toks)).
+Proof. destruct (parseFront_total o s) as (r & _ & _ & [(e & _ & H)|(_ & H)]); eauto. Qed.
+
+Definition err_in_range (s : list N) (e : perr) : Prop :=
+  errCorrupted (lenN s) e = false /\
+  p_off (e_begin e) <= p_off (e_end e) <= lenN s /\
+  p_off (e_outer e) <= p_off (e_begin e) /\
+  (exists pre, e_begin e = pos_spec pre /\ exists post, s = pre ++ t_val (e_tok e) ++ post) /\
+  (exists pre, e_outer e = pos_spec pre /\ exists post, s = pre ++ post).
+
+Theorem tokenizer_error_in_range o s e : parseFront o s = Ok (F_tokerr e) -> err_in_range s e.
+Proof.
+  intros F. destruct (parseFront_total o s) as (r & E & L & [(e' & Ee & H)|(_ & H)]); rewrite F in H; inversion H; subst e'.
+  pose proof (lo_recomb _ _ L) as R. unfold recombineTokens in R.
+  exact (admissible_in_range s (r_all r) (r_rest r) e (lo_pos _ _ L) R (lex_err_admissible s r e L Ee)).
+Qed.
+
+Theorem parser_error_in_range o s toks e :
+  parseFront o s = Ok (F_tokens toks) -> admissibleErr toks e -> err_in_range s e.
+Proof.
+  intros F A. destruct (parseFront_total o s) as (r & E & L & [(e' & Ee & H)|(En & H)]); rewrite F in H; inversion H; subst toks.
+  pose proof (lo_recomb _ _ L) as R. unfold recombineTokens in R.
+  destruct (lo_noerr _ _ L En) as (_ & Hall & _). rewrite Hall in A.
+  exact (admissible_in_range s (r_all r) (r_rest r) e (lo_pos _ _ L) R A).
+Qed.
+
+(** the token list handed to the parser ends with the only eof token, so an iterator that never pops
+    eof always has a front token (tokenIterator.front cannot index out of range) *)
+Theorem front_tokens_end_with_eof o s toks :
+  parseFront o s = Ok (F_tokens toks) ->
+  exists init p, toks = init ++ [mkTok T_eof [] p] /\ Forall (fun t => t_val t <> []) init /\ vals toks = s.
+Proof.
+  intros F. destruct (parseFront_total o s) as (r & E & L & [(e' & Ee & H)|(En & H)]); rewrite F in H; inversion H; subst toks.
+  destruct (lo_noerr _ _ L En) as (Hrest & Hall & init & p & Hi). exists init, p. rewrite Hall. split; [exact Hi|]. split.
+  - apply Forall_forall. intros t Ht Hv. apply in_split in Ht. destruct Ht as (a & b & ->).
+    destruct (lo_empty_only_eof _ _ L a t (b ++ [mkTok T_eof [] p])) as (Hb & _); [rewrite Hi, <- app_assoc; reflexivity|exact Hv|].
+    destruct b; discriminate.
+  - pose proof (lo_recomb _ _ L) as R. unfold recombineTokens in R. rewrite Hrest, app_nil_r in R. exact R.
+Qed.
